@@ -202,6 +202,21 @@ def exec_ops(fcbin, hists, name):
     return trf
 
 
+def model_check(tier):
+    """All invariants / action properties of MC_ForkChoice.cfg on every history within the bound."""
+    wd = lib.fresh_spec_copy()
+    cfg = open(os.path.join(wd, "MC_ForkChoice.cfg")).read()
+    if tier == "thorough":
+        cfg = cfg.replace("MaxCalls = 4", "MaxCalls = 5")
+        open(os.path.join(wd, "MC_ForkChoice.cfg"), "w").write(cfg)
+    res = lib.tlc("MC_ForkChoice", cfg="MC_ForkChoice.cfg", workdir=wd, workers=8 if tier == "quick" else 14,
+                  timeout=600 if tier == "quick" else 3000)
+    shutil.rmtree(wd, ignore_errors=True)
+    if res.rc != 0 or res.errors or "No error has been found" not in res.out:
+        raise lib.InfraError("MC_ForkChoice did not pass (specification problem, not a verdict):\n" + res.out[-4000:])
+    return res
+
+
 PROFILE = {"C09": ["votes", "mixed"], "C10": ["prune", "mixed"], "C11": ["queries", "mixed"]}
 
 
@@ -252,6 +267,19 @@ def run_check(pid, tier, seed, replay=None):
             run.counts["tlc-generated-behaviours"] += len(hists)
             jobs.append((exec_ops(fcbin, hists, "tlc%d" % spe), spe))
 
+    # exhaustive model checking of the abstract specification (design-level; never a verdict on the code)
+    mc_holder = {}
+    if not replay:
+        import threading
+
+        def mc():
+            try:
+                mc_holder["res"] = model_check(tier)
+            except Exception as ex:  # noqa: BLE001
+                mc_holder["err"] = ex
+        mc_thread = threading.Thread(target=mc)
+        mc_thread.start()
+
     def val(job):
         path, spe = job
         events = lib.read_ndjson(path)
@@ -260,6 +288,16 @@ def run_check(pid, tier, seed, replay=None):
     for path, events, res in lib.parallel_map(val, jobs):
         summarize_trace(run, events)
         process_result(run, path, events, res, findings)
+
+    if not replay:
+        mc_thread.join()
+        if "err" in mc_holder:
+            raise mc_holder["err"]
+        mres = mc_holder["res"]
+        run.states += mres.distinct
+        run.transitions += mres.generated
+        run.counts["mc:distinct-states"] = mres.distinct
+        run.counts["mc:depth"] = mres.depth
 
     # verdicts
     rc = 0
@@ -303,6 +341,7 @@ def run_check(pid, tier, seed, replay=None):
         "known_deviations_enabled": sorted(findings), "deviations_used": dict(run.deviations),
         "notes": dict(run.notes), "mismatches_other_properties": len(run.foreign),
         "exhaustive": False,
+        "exhaustive_part": "MC_ForkChoice: all histories of <= %d calls over 3 roots, slots 0..3, 2 validators, epochs 0..1 (12 invariants / action properties)" % (4 if tier == "quick" else 5),
     }
     lib.write_evidence(pid, tier, seed, cov, lib.elapsed() - t0, violations=len(run.mismatches),
                        assumptions=["TLC, SANY, CommunityModules Json", "harness/cmd/fc driver and its root encoding",
